@@ -139,8 +139,8 @@ class FakeFile(object):
                 # object or the socket from another thread does NOT wake a
                 # recv() that is already blocked
                 if deadline is None:
-                    deadline = time.time() + link.world.block_guard
-                left = deadline - time.time()
+                    deadline = time.monotonic() + link.world.block_guard
+                left = deadline - time.monotonic()
                 if left <= 0:
                     link.world.blocked.append(link)
                     link.killed = True
@@ -179,6 +179,9 @@ class FakeSocket(object):
         if self.closed:
             raise OSError(errno.EBADF, 'Bad file descriptor')
         self.world.yield_point('connect', None)
+        if addr[0] in self.world.dns_names:
+            # scripts are looked up by the name that was resolved
+            addr = (self.world.dns_names[addr[0]],) + tuple(addr[1:])
         self.link = self.world.accept(addr)       # may raise OSError
 
     def makefile(self, mode='r', buffering=None):
@@ -302,6 +305,8 @@ class World(object):
         self.runaway = False
         self.scheduler = None
         self.resolved = []
+        self.dns_records = 1            # address records per family
+        self.dns_names = {}             # numeric address -> resolved name
 
     def next_seq(self):
         with self.seq_lock:
@@ -370,8 +375,21 @@ class World(object):
             @staticmethod
             def getaddrinfo(host, port, family=0, type=0, proto=0, flags=0):
                 world.resolved.append((host, port))
-                return [(AF_INET6, SOCK_STREAM, 6, '', (host, port, 0, 0)),
-                        (AF_INET, SOCK_STREAM, 6, '', (host, port))]
+                n = world.dns_records
+                if n <= 1:
+                    return [(AF_INET6, SOCK_STREAM, 6, '',
+                             (host, port, 0, 0)),
+                            (AF_INET, SOCK_STREAM, 6, '', (host, port))]
+                # a name with several address records per family (round-
+                # robin DNS): numeric addresses, as the real resolver gives
+                out = []
+                for k in range(n):
+                    ip6, ip4 = 'fd00::%x' % (k + 1), '10.0.0.%d' % (k + 1)
+                    world.dns_names[ip6] = world.dns_names[ip4] = host
+                    out.append((AF_INET6, SOCK_STREAM, 6, '',
+                                (ip6, port, 0, 0)))
+                    out.append((AF_INET, SOCK_STREAM, 6, '', (ip4, port)))
+                return out
 
             @staticmethod
             def socket(family=AF_INET, type=SOCK_STREAM, proto=0):
@@ -433,11 +451,11 @@ class World(object):
     def join_threads(self, timeout=20.0):
         """join every networking thread started during the case; returns
         the list of threads still alive (harness-level timeout)."""
-        deadline = time.time() + timeout
+        deadline = time.monotonic() + timeout
         i = 0
         while i < len(self.threads):
             t = self.threads[i]
-            left = max(0.0, deadline - time.time())
+            left = max(0.0, deadline - time.monotonic())
             if t.ident is not None:
                 t.join(left)
             i += 1
@@ -449,7 +467,7 @@ class World(object):
         link for `quiet_ticks` consecutive idle polls of the client
         ('idle' - the client is waiting for a silent server; deterministic
         evidence, not a timer), or the harness guard expires ('timeout')."""
-        deadline = time.time() + timeout
+        deadline = time.monotonic() + timeout
         last = None
         stable = 0
         while True:
@@ -467,7 +485,7 @@ class World(object):
                     return 'idle'
             else:
                 last, stable, idle0 = sig, 0, idle
-            if time.time() > deadline:
+            if time.monotonic() > deadline:
                 return 'timeout'
             for t in self.threads:
                 if t.ident is not None and t.is_alive():
@@ -486,7 +504,7 @@ class World(object):
     def wait_idle(self, link, conn=None, timeout=10.0):
         """wait until the client consumed everything the server sent on
         link, its outgoing queue is empty and it went idle in select."""
-        deadline = time.time() + timeout
+        deadline = time.monotonic() + timeout
         with link.cond:
             while True:
                 q = getattr(conn, '_outgoing_packet_queue', ()) \
@@ -501,7 +519,7 @@ class World(object):
                         return True
                 else:
                     link.cond.wait(0.02)
-                if time.time() > deadline or link.killed:
+                if time.monotonic() > deadline or link.killed:
                     return False
                 if not any(t.is_alive() for t in self.threads):
                     return True
